@@ -32,7 +32,9 @@ PEER_PORT = 5000
 ME_PORT = 61000
 FILESIZE = 4000
 
-NEG_PREFIX = ('queue-remotely-', 'initialize-')
+# the two task slots of a Transfer (private attributes; Transfer.get_tasks() is the public accessor but does not
+# say which is which) - if they are renamed the kinds are told apart by the coroutine a slot task runs
+SLOT_ATTRS = (('rq', '_remotely_queue_task'), ('init', '_transfer_task'))
 HARNESS_PREFIX = ('user-', 'peer-link-', 'sim-accept-')     # tasks of the harness itself
 
 
@@ -103,6 +105,8 @@ class World:
         self.names = []                   # remote paths
         self.task_ids: dict = {}          # asyncio.Task -> small int, creation order
         self.task_owner: dict = {}        # asyncio.Task -> t
+        self.task_kind: dict = {}         # asyncio.Task -> 'rq' | 'init' (slot it was first seen in)
+        self.degraded = None
         self.gates: list[dict] = []       # connect attempts towards the peer
         self.indirect: list[dict] = []    # ConnectToPeer requests seen by the server
         self.links: list[PeerLink] = []
@@ -252,9 +256,51 @@ class World:
         m = re.search(r'(\d+)$', tk.get_name())
         return (int(m.group(1)) if m else 0, tk.get_name())
 
+    def _slots(self, tr):
+        """{'rq': task|None, 'init': task|None} read from the two slot attributes, or None when they are not there."""
+        out = {}
+        for kind, attr in SLOT_ATTRS:
+            if not hasattr(tr, attr):
+                return None
+            out[kind] = getattr(tr, attr)
+        return out
+
+    def _slot_tasks(self, tr):
+        try:
+            return list(tr.get_tasks())
+        except AttributeError:
+            sl = self._slots(tr)
+            if sl is None:
+                raise MachineryFailure('neither Transfer.get_tasks() nor the slot attributes exist: the task slots '
+                                       'of a transfer cannot be observed')
+            return [x for x in sl.values() if x is not None]
+
+    def _note_slots(self):
+        """The kind of a task is the slot in which it is first seen (right after its creation a task is reachable
+        from exactly one slot of its transfer); it also settles which transfer the task works for.  Task names
+        play no part."""
+        for i, tr in enumerate(self.transfers):
+            sl = self._slots(tr)
+            if sl is not None:
+                pairs = [(k, tk) for k, tk in sl.items() if tk is not None]
+            else:
+                # slot attributes renamed: tell the kinds apart by the coroutine the slot task runs
+                pairs = []
+                for tk in self._slot_tasks(tr):
+                    try:
+                        nm = tk.get_coro().cr_code.co_name.lower()
+                    except Exception:
+                        nm = ''
+                    pairs.append(('rq' if ('queue' in nm and 'remote' in nm) else 'init', tk))
+                self.degraded = 'slot attributes not found: kinds taken from the coroutine names of the slot tasks'
+            for kind, tk in pairs:
+                if tk not in self.task_kind:
+                    self.task_kind[tk] = kind
+                self.task_owner.setdefault(tk, i + 1)
+
     def _owner(self, tk):
-        """Transfer a task works for: the Transfer object - or the remote path of one - found among the locals of
-        its coroutine.  A task is recognised by what it holds, not by its name."""
+        """Transfer a task works for: the transfer whose slot holds it, else the Transfer object - or the remote path
+        of one - found among the locals of its coroutine.  A task is recognised by what it holds, not by its name."""
         if tk in self.task_owner:
             return self.task_owner[tk]
         t = 0
@@ -267,9 +313,6 @@ class World:
                             t = i + 1
         except Exception:
             t = 0
-        named = tk.get_name().startswith(NEG_PREFIX)
-        if t == 0 and named and self.n == 1 and self.transfers:
-            t = 1
         if t:
             self.task_owner[tk] = t
         return t
@@ -277,25 +320,16 @@ class World:
     def _scan_tasks(self):
         if len(self.transfers) < self.n:
             return
-        new = [tk for tk in self._lib_tasks() if tk not in self.task_ids and not tk.done()
-               and (self._owner(tk) or tk.get_name().startswith(NEG_PREFIX))]
+        self._note_slots()
+        new = [tk for tk in self._lib_tasks() if tk not in self.task_ids and not tk.done() and self._owner(tk)]
         for tk in sorted(new, key=self._name_key):
             self.task_ids[tk] = len(self.task_ids) + 1
             self.keep.append(tk)
-            if self._owner(tk) == 0:
-                self.harness_errors.append(f'cannot attribute task {tk.get_name()}')
 
     def _kind(self, tk):
-        nm = tk.get_name()
-        if nm.startswith('queue-remotely-'):
-            return 'rq'
-        if nm.startswith('initialize-'):
-            return 'init'
-        # some other task holding the transfer: fine if the transfer's slots reach it, else "oth"
-        t = self.task_owner.get(tk, 0)
-        if t and any(x is tk for x in self.transfers[t - 1].get_tasks()):
-            return 'init'
-        return 'oth'
+        """'rq' / 'init': the slot the task was first seen in; 'oth': a task working for a transfer that has never
+        been reachable from one of its slots."""
+        return self.task_kind.get(tk, 'oth')
 
     def live(self, t, kind):
         self._scan_tasks()
@@ -326,11 +360,14 @@ class World:
         for i, tr in enumerate(self.transfers):
             t = i + 1
             rq = tt = 0
-            for tk in tr.get_tasks():
+            sl = self._slots(tr)
+            pairs = ([(k, tk) for k, tk in sl.items() if tk is not None] if sl is not None
+                     else [(self._kind(tk), tk) for tk in self._slot_tasks(tr)])
+            for kind, tk in pairs:
                 if tk not in self.task_ids:
                     self.task_ids[tk] = len(self.task_ids) + 1
                     self.keep.append(tk)
-                if self._kind(tk) == 'rq':
+                if kind == 'rq':
                     rq = self.task_ids[tk]
                 else:
                     tt = self.task_ids[tk]
@@ -1412,8 +1449,9 @@ def run(chk: Check, args):
     chk.assumptions += [
         'CPython asyncio: task.cancel() is delivered at the task\'s next step; done-callbacks run one ready-slot '
         'after the task ended, in registration order; Queue.put_nowait wakes the getter through the ready queue',
-        'negotiation tasks are found by their names queue-remotely-*/initialize-* and attributed to a transfer '
-        'through the Transfer object held by their coroutine; slots are read with Transfer.get_tasks()',
+        'tasks are found by what they hold (the Transfer object or its remote path among the locals of their '
+        'coroutine) or by the slot that references them, never by name; the kind of a task is the slot '
+        '(_remotely_queue_task / _transfer_task) in which it is first seen',
         'PeerTransferQueueFailed is not sent for a PAUSED download (PAUSED -> FAILED is a documented edge the peer may '
         'take); remotely_queued / place_in_queue mirror the peer\'s queue: a change of exactly that field in the span '
         'in which the peer tells it (PeerUploadFailed / PeerPlaceInQueueReply) is not a change made by the client',
